@@ -61,6 +61,7 @@ type op struct {
 	v    int         // LS MS
 	vp   [16]int     // VS: -1 = not set
 	data []byte      // AA
+	desc string      // AA: description (file spec "name,desc")
 	// VS: vp[6] is the number handed to the API, i.e. the value of one of the constants
 	// model.NFSPageModeUseNone/UseOutlines/UseThumb/UseOC; nfsWant is the PageMode the
 	// constant stands for (0, 1, 2, 4), which is what listing must show
@@ -117,7 +118,7 @@ func (o op) wire() string {
 			}
 		}
 	case "AA":
-		p = append(p, byteS(o.strs[0]), vh.Hex(o.data))
+		p = append(p, byteS(o.strs[0]), byteS(o.desc), vh.Hex(o.data))
 	}
 	return strings.Join(p, "|")
 }
@@ -267,7 +268,11 @@ func apply(doc []byte, o op, tmp string) (out []byte, ok bool, panicked string) 
 		if e := os.WriteFile(fn, o.data, 0o644); e != nil {
 			panic(e)
 		}
-		err = api.AddAttachments(rs, &w, []string{fn}, false, conf())
+		spec := fn
+		if o.desc != "" {
+			spec += "," + o.desc
+		}
+		err = api.AddAttachments(rs, &w, []string{spec}, false, conf())
 	case "AR":
 		err = api.RemoveAttachments(rs, &w, o.strs, conf())
 	}
@@ -286,8 +291,45 @@ type obs struct {
 	pl   int // -1 none
 	pm   int
 	vp   *[16]int
-	att  map[string][]byte
+	att  map[string]attV
+	xo   string // extract one name at a time: probe>key:data | ...
+	xs   string // extract all the probe names in one call: key:data | ...
 	errs string
+}
+
+// attV is what the name tree stores under a key.
+type attV struct {
+	fname, desc string
+	data        []byte
+}
+
+// probes: every key, file name and description and one absent name, without blanks, sorted.
+func probes(att map[string]attV) []string {
+	set := map[string]bool{"zz": true}
+	for k, v := range att {
+		set[k], set[v.fname], set[v.desc] = true, true, true
+	}
+	var ps []string
+	for _, p := range sortedKeys(set) {
+		if !blankS(p) {
+			ps = append(ps, p)
+		}
+	}
+	return ps
+}
+
+// find is the lookup the property asks for: the value whose KEY is p whenever such a key
+// exists; the file name / description of an entry only when no key matches (first in key order).
+func find(att map[string]attV, p string) (string, bool) {
+	if _, ok := att[p]; ok {
+		return p, true
+	}
+	for _, k := range sortedKeys(att) {
+		if att[k].fname == p || att[k].desc == p {
+			return k, true
+		}
+	}
+	return "", false
 }
 
 func observe(doc []byte) (o obs) {
@@ -327,7 +369,8 @@ func observe(doc []byte) (o obs) {
 	}
 	aa, err := api.Attachments(bytes.NewReader(doc), conf())
 	note("at", err)
-	o.att = map[string][]byte{}
+	o.att = map[string]attV{}
+	o.xo = byteS("zz") + ">-"
 	if err == nil && len(aa) > 0 {
 		xx, err := api.ExtractAttachmentsRaw(bytes.NewReader(doc), "", nil, conf())
 		note("ax", err)
@@ -342,11 +385,36 @@ func observe(doc []byte) (o obs) {
 			if !ok {
 				o.bad += "listed-not-extracted,"
 			}
-			o.att[a.ID] = b
+			o.att[a.ID] = attV{fname: a.FileName, desc: a.Desc, data: b}
 		}
 		if len(got) != len(aa) {
 			o.bad += "extract-count,"
 		}
+		// extract by name: one at a time, then all the names in one call
+		ps := probes(o.att)
+		var xo, xs []string
+		for _, p := range ps {
+			one, err := api.ExtractAttachmentsRaw(bytes.NewReader(doc), "", []string{p}, conf())
+			note("x1", err)
+			switch len(one) {
+			case 0:
+				xo = append(xo, byteS(p)+">-")
+			case 1:
+				b, e := io.ReadAll(one[0])
+				note("xr", e)
+				xo = append(xo, byteS(p)+">"+byteS(one[0].ID)+":"+vh.Hex(b))
+			default:
+				o.bad += "extract-one-returned-many,"
+			}
+		}
+		many, err := api.ExtractAttachmentsRaw(bytes.NewReader(doc), "", ps, conf())
+		note("xm", err)
+		for _, a := range many {
+			b, e := io.ReadAll(a)
+			note("xr", e)
+			xs = append(xs, byteS(a.ID)+":"+vh.Hex(b))
+		}
+		o.xo, o.xs = strings.Join(xo, "|"), strings.Join(xs, "|")
 	}
 	return o
 }
@@ -383,7 +451,7 @@ func (o obs) show() string {
 		pr = append(pr, byteS(k)+"="+runes(o.pr[k]))
 	}
 	for _, k := range sortedKeys(o.att) {
-		at = append(at, byteS(k)+"="+vh.Hex(o.att[k]))
+		at = append(at, byteS(k)+"="+vh.Hex(o.att[k].data)+":"+byteS(o.att[k].fname)+":"+byteS(o.att[k].desc))
 	}
 	vp := "-"
 	if o.vp != nil {
@@ -398,7 +466,7 @@ func (o obs) show() string {
 		vp = "[" + strings.Join(p, ",") + "]"
 	}
 	return "kw=" + strings.Join(kw, "|") + ";pr=" + strings.Join(pr, "|") + ";pl=" + hx(o.pl) + ";pm=" + hx(o.pm) +
-		";vp=" + vp + ";at=" + strings.Join(at, "|")
+		";vp=" + vp + ";at=" + strings.Join(at, "|") + ";xo=" + o.xo + ";xs=" + o.xs
 }
 
 // ---------------------------------------------------------------- abstract store (the property)
@@ -409,11 +477,11 @@ type store struct {
 	pl  int
 	pm  int
 	vp  *[16]int
-	att map[string][]byte
+	att map[string]attV
 }
 
 func newStore() *store {
-	return &store{kw: map[string]bool{}, pr: map[string]string{}, pl: -1, pm: -1, att: map[string][]byte{}}
+	return &store{kw: map[string]bool{}, pr: map[string]string{}, pl: -1, pm: -1, att: map[string]attV{}}
 }
 
 var reserved = map[string]bool{"Keywords": true, "Producer": true, "CreationDate": true, "ModDate": true, "Trapped": true}
@@ -504,27 +572,26 @@ func (s *store) edit(o op, ver int) {
 	case "VR":
 		s.vp = nil
 	case "AA":
-		s.att[o.strs[0]] = o.data
+		s.att[o.strs[0]] = attV{fname: o.strs[0], desc: o.desc, data: o.data}
 	case "AR":
 		if len(o.strs) == 0 {
-			s.att = map[string][]byte{}
+			s.att = map[string]attV{}
 			return
 		}
-		// the ids are removed one after the other; if one of them is not (or no longer)
-		// there, the call is refused and nothing changes
-		left := map[string]bool{}
-		for k := range s.att {
-			left[k] = true
+		// the names are resolved (find) and removed one after the other; if one of them
+		// resolves to nothing, the call is refused and nothing changes
+		left := map[string]attV{}
+		for k, v := range s.att {
+			left[k] = v
 		}
-		for _, k := range o.strs {
-			if blankS(k) || !left[k] {
+		for _, p := range o.strs {
+			k, ok := find(left, p)
+			if blankS(p) || !ok {
 				return
 			}
 			delete(left, k)
 		}
-		for _, k := range o.strs {
-			delete(s.att, k)
-		}
+		s.att = left
 	}
 }
 
@@ -550,7 +617,7 @@ func vpValid(s [16]int, ver int) bool {
 }
 
 func (s *store) obs() obs {
-	o := obs{pl: s.pl, pm: s.pm, pr: map[string]string{}, att: map[string][]byte{}}
+	o := obs{pl: s.pl, pm: s.pm, pr: map[string]string{}, att: map[string]attV{}}
 	o.kw = sortedKeys(s.kw)
 	for k, v := range s.pr {
 		o.pr[k] = v
@@ -562,6 +629,18 @@ func (s *store) obs() obs {
 	for k, v := range s.att {
 		o.att[k] = v
 	}
+	// what extracting by name must return
+	ps := probes(o.att)
+	var xo, xs []string
+	for _, p := range ps {
+		if k, ok := find(o.att, p); ok {
+			xo = append(xo, byteS(p)+">"+byteS(k)+":"+vh.Hex(o.att[k].data))
+			xs = append(xs, byteS(k)+":"+vh.Hex(o.att[k].data))
+		} else {
+			xo = append(xo, byteS(p)+">-")
+		}
+	}
+	o.xo, o.xs = strings.Join(xo, "|"), strings.Join(xs, "|")
 	return o
 }
 
@@ -582,7 +661,8 @@ var valGood = []string{"v", "w w", " sp ", "Ð·Ð½Ð°Ñ‡ (x) \\ y", "a\rb\nc", "æ—¥æ
 	"a\x00b", "ðŸ˜€ astral", "((", "))", "\\(", "x\\", "1", "\ufeffbom", "Ã¾Ã¿", "tab\t", "D:2020"}
 var valBlank = []string{"", " ", "\t\n"}
 
-var idGood = []string{"a.txt", "b.bin", "Ð´Ð°Ð½Ð½Ñ‹Ðµ.txt", "sp ace.txt", "p(1).dat", "æ—¥æœ¬.txt", "x#y", "Z", "semi;colon", "Ã©.e"}
+// prefixes, case variants, NFC/NFD variants of each other
+var idGood = []string{"a.txt", "b.txt", "a", "A.TXT", "a.txt.bak", "b.bin", "Ð´Ð°Ð½Ð½Ñ‹Ðµ.txt", "sp ace.txt", "p(1).dat", "æ—¥æœ¬.txt", "x#y", "Z", "semi;colon", "\u00e9.e", "e\u0301.e"}
 
 func pick(r *vh.Run, l []string) string { return l[r.Rand.Intn(len(l))] }
 
@@ -730,7 +810,8 @@ func genOp(r *vh.Run, g genCfg, ver int, st *store) op {
 			}
 			id = pick(r, idGood)
 		}
-		if _, dup := st.att[id]; dup {
+		if _, dup := st.att[id]; dup || len(st.att) >= 3 {
+			// at most three at a time: a fourth makes the name tree grow kid nodes (separate probe)
 			return op{code: "LR"}
 		}
 		n := r.Rand.Intn(40)
@@ -739,7 +820,19 @@ func genOp(r *vh.Run, g genCfg, ver int, st *store) op {
 		}
 		data := make([]byte, n)
 		r.Rand.Read(data)
-		return op{code: "AA", strs: []string{id}, data: data}
+		o := op{code: "AA", strs: []string{id}, data: data}
+		// descriptions are mostly the names of other attachments (present or still to come)
+		switch r.Rand.Intn(4) {
+		case 0:
+		case 1:
+			o.desc = pick(r, []string{"notes", "a description, with a comma", "ÃœnÃ¯ cÃ¶dÃ©", " padded "})
+		default:
+			o.desc = pick(r, idGood)
+			if ks := sortedKeys(st.att); len(ks) > 0 && rare(2) {
+				o.desc = ks[r.Rand.Intn(len(ks))]
+			}
+		}
+		return o
 	default: // AR
 		o := op{code: "AR"}
 		if rare(4) {
@@ -747,9 +840,16 @@ func genOp(r *vh.Run, g genCfg, ver int, st *store) op {
 		}
 		ks := sortedKeys(st.att)
 		if len(ks) > 0 && !rare(4) {
-			o.strs = append(o.strs, ks[r.Rand.Intn(len(ks))])
-			if len(ks) > 1 && rare(3) {
-				o.strs = append(o.strs, ks[r.Rand.Intn(len(ks))])
+			k := ks[r.Rand.Intn(len(ks))]
+			if d := st.att[k].desc; rare(3) && !blankS(d) {
+				k = d // by description (or by a name that is also somebody's description)
+			}
+			o.strs = append(o.strs, k)
+			if k2 := ks[r.Rand.Intn(len(ks))]; len(ks) > 1 && rare(3) {
+				// several names in one call: distinct keys (see the probe "fallback after a removal")
+				if _, isKey := st.att[k]; isKey && k2 != k {
+					o.strs = append(o.strs, k2)
+				}
 			}
 		} else {
 			o.strs = append(o.strs, pick(r, idGood))
@@ -830,9 +930,12 @@ func eqObs(a, b obs) string {
 		return "at"
 	}
 	for k, v := range a.att {
-		if w, ok := b.att[k]; !ok || !bytes.Equal(v, w) {
+		if w, ok := b.att[k]; !ok || !bytes.Equal(v.data, w.data) || v.fname != w.fname || v.desc != w.desc {
 			return "at"
 		}
+	}
+	if a.xo != b.xo || a.xs != b.xs {
+		return "extract-by-name"
 	}
 	return ""
 }
@@ -846,7 +949,7 @@ func (o op) human() string {
 	case "VS":
 		return fmt.Sprintf("VS%v", o.vp)
 	case "AA":
-		return fmt.Sprintf("AA(%q,%d bytes)", o.strs[0], len(o.data))
+		return fmt.Sprintf("AA(%q,desc %q,%d bytes)", o.strs[0], o.desc, len(o.data))
 	}
 	return fmt.Sprintf("%s%q", o.code, o.strs)
 }
@@ -867,7 +970,58 @@ type start struct {
 	hasInfo bool
 	xmpLive bool     // the XMP packet has pdf:Keywords that a read merges in
 	kw      []string // expected initial listing (generated documents)
-	corpus  bool     // initial store = initial listing
+	att     map[string]attV
+	corpus  bool // initial store = initial listing
+	kids    bool // probe of a name tree with kid nodes (O only)
+}
+
+type attEntry struct {
+	key, fname, desc string
+	data             []byte
+}
+
+// attPDF builds the small PDF with a hand-made EmbeddedFiles name tree whose file names
+// (UF/F) and descriptions are independent of the keys. ASCII without ( ) \ only.
+func attPDF(ver string, ee []attEntry) start {
+	sort.Slice(ee, func(i, j int) bool { return ee[i].key < ee[j].key })
+	var b bytes.Buffer
+	offs := []int{}
+	obj := func(s string) {
+		offs = append(offs, b.Len())
+		fmt.Fprintf(&b, "%d 0 obj\n%s\nendobj\n", len(offs), s)
+	}
+	b.WriteString("%PDF-" + ver + "\n")
+	names := ""
+	for i, e := range ee {
+		names += fmt.Sprintf("(%s) %d 0 R ", e.key, 5+2*i)
+	}
+	obj("<< /Type /Catalog /Pages 2 0 R /Names << /EmbeddedFiles << /Names [" + names + "] >> >> >>")
+	obj("<< /Type /Pages /Kids [3 0 R] /Count 1 >>")
+	obj("<< /Type /Page /Parent 2 0 R /MediaBox [0 0 200 300] /Resources << >> /Contents 4 0 R >>")
+	content := "0 0 m 10 100 l S"
+	obj(fmt.Sprintf("<< /Length %d >>\nstream\n%s\nendstream", len(content), content))
+	att := map[string]attV{}
+	var wire []string
+	for i, e := range ee {
+		d := ""
+		if e.desc != "" {
+			d = " /Desc (" + e.desc + ")"
+		}
+		obj(fmt.Sprintf("<< /Type /Filespec /F (%s) /UF (%s)%s /EF << /F %d 0 R /UF %d 0 R >> >>", e.fname, e.fname, d, 6+2*i, 6+2*i))
+		obj(fmt.Sprintf("<< /Type /EmbeddedFile /Length %d >>\nstream\n%s\nendstream", len(e.data), e.data))
+		att[e.key] = attV{fname: e.fname, desc: e.desc, data: e.data}
+		wire = append(wire, byteS(e.key)+"~"+byteS(e.fname)+"~"+byteS(e.desc)+"~"+vh.Hex(e.data))
+	}
+	xr := b.Len()
+	fmt.Fprintf(&b, "xref\n0 %d\n0000000000 65535 f \n", len(offs)+1)
+	for _, o := range offs {
+		fmt.Fprintf(&b, "%010d 00000 n \n", o)
+	}
+	fmt.Fprintf(&b, "trailer\n<< /Size %d /Root 1 0 R >>\nstartxref\n%d\n%%%%EOF\n", len(offs)+1, xr)
+	vn := int(ver[0]-'0')*10 + int(ver[2]-'0')
+	return start{doc: b.Bytes(), ver: ver, att: att, kw: []string{},
+		init: strconv.FormatInt(int64(vn), 16) + "|0|-|-|" + strings.Join(wire, ";"),
+		desc: fmt.Sprintf("generated PDF %s with EmbeddedFiles %q", ver, ee)}
 }
 
 func xmlEsc(s string) string {
@@ -953,7 +1107,7 @@ func historyFrom(r *vh.Run, s0 start, ops []op, gen func(st *store) op, n int, t
 	xmpLive := s0.xmpLive
 	var wires, humans []string
 	oracle := useOracle
-	if s0.corpus || s0.kw != nil {
+	if s0.corpus || s0.kw != nil || s0.att != nil {
 		got := observe(doc)
 		if got.bad != "" {
 			r.OracleFail("start-document-unreadable", map[string]any{"start": s0.desc}, hexs(got.errs))
@@ -973,6 +1127,9 @@ func historyFrom(r *vh.Run, s0 start, ops []op, gen func(st *store) op, n int, t
 		} else {
 			for _, k := range s0.kw {
 				st.kw[k] = true
+			}
+			for k, v := range s0.att {
+				st.att[k] = v
 			}
 			if oracle {
 				if d := eqObs(got, st.obs()); d != "" {
@@ -1042,6 +1199,8 @@ func historyFrom(r *vh.Run, s0 start, ops []op, gen func(st *store) op, n int, t
 				class = "keyword-with-separator-or-outer-blank"
 			case d == "kw" && t.noInfo && (o.code == "KR"):
 				class = "keyword-remove-refused-without-info-dict"
+			case s0.kids && (d == "unreadable" || d == "at" || d == "extract-by-name"):
+				class = "attachment-remove-corrupts-name-tree-with-kids"
 			case d == "kw" && t.prAllLive:
 				class = "remove-all-properties-drops-xmp-keywords"
 			case (d == "vp" || d == "unreadable") && t.nfs3:
@@ -1145,6 +1304,53 @@ func main() {
 	dup := []op{{code: "AA", strs: []string{"a.txt"}, data: []byte("one")}, {code: "AA", strs: []string{"a.txt"}, data: []byte("two")},
 		{code: "AA", strs: []string{"a.txt"}, data: []byte("three")}, {code: "AR", strs: []string{"a.txt"}}}
 	history(r, "1.7", dup, nil, len(dup), tmp, false)
+
+	// ---- attachments: the name tree key wins over file names and descriptions.
+	// descriptions that are the names of other attachments, both sort orders, prefixes, case
+	// and normalisation variants; list / extract one / several / all after every step
+	// (observe), remove one, add again
+	aa := func(id, desc, data string) op { return op{code: "AA", strs: []string{id}, desc: desc, data: []byte(data)} }
+	ar := func(ids ...string) op { return op{code: "AR", strs: ids} }
+	nfc, nfd := "\u00e9.e", "e\u0301.e"
+	attH := [][]op{
+		{aa("a.txt", "b.txt", "bytes of a"), aa("b.txt", "", "bytes of b"), ar("b.txt"), aa("b.txt", "a.txt", "b again"), ar("a.txt"), ar("a.txt")},
+		{aa("b.txt", "a.txt", "bytes of b"), aa("a.txt", "", "bytes of a"), ar("a.txt"), aa("a.txt", "b.txt", "a again"), ar("b.txt"), ar("b.txt")},
+		{aa("a", "", "1"), aa("a.txt", "a", "2"), aa("A.TXT", "a.txt", "3"), ar("a"), ar("a"), aa("a.txt.bak", "A.TXT", "4"), aa("a", "a.txt.bak", "5"), ar("A.TXT", "A.TXT"), ar("a")},
+		{aa(nfc, nfd, "nfc"), aa(nfd, nfc, "nfd"), ar(nfc), ar(nfc), aa(nfc, "", "nfc again")},
+		{aa("x", "y", "1"), aa("y", "z", "2"), aa("z", "x", "3"), ar("y"), ar("y"), ar("y")},
+		{aa("k1", "same", "1"), aa("k2", "same", "2"), aa("k0", "k2", "0"), ar("same"), ar("same"), ar("same")},
+	}
+	for _, ver := range []string{"1.4", "1.7"} {
+		for _, h := range attH {
+			history(r, ver, h, nil, len(h), tmp, true)
+		}
+	}
+	// O only (the model keeps the name tree as the map it refines): more than three
+	// attachments make the name tree grow kid nodes; removing entries until a kid is empty
+	for _, h := range [][]op{
+		{aa("a", "", "1"), aa("b", "", "2"), aa("c", "", "3"), aa("d", "", "4"), ar("a"), ar("b"), ar("c")},
+		{aa("a", "", "1"), aa("b", "", "2"), aa("c", "", "3"), aa("d", "", "4"), ar("d"), ar("c"), aa("c", "a", "5")},
+		{aa("a", "", "1"), aa("b", "", "2"), aa("c", "", "3"), aa("d", "", "4"), aa("e", "", "5"), ar("a"), ar("c"), ar("b")},
+	} {
+		historyFrom(r, start{doc: makePDF("1.7"), ver: "1.7", desc: "generated PDF 1.7 (name tree with kid nodes)", kids: true}, h, nil, len(h), tmp, true)
+	}
+	// hand-made name trees: equal UF/F under different keys, file names / descriptions that
+	// are other entries' keys
+	for _, ee := range [][]attEntry{
+		{{"k1", "same.txt", "k2", []byte("one")}, {"k2", "same.txt", "k1", []byte("two")}, {"k3", "k1", "", []byte("three")}},
+		{{"b", "a", "c", []byte("B")}, {"a", "b", "b", []byte("A")}, {"c", "c", "a", []byte("C")}},
+		{{"m", "zz", "zz", []byte("M")}, {"zz0", "m", "", []byte("Z")}},
+	} {
+		s0 := attPDF("1.7", ee)
+		for _, h := range [][]op{
+			{{code: "LS", v: 1}, ar("same.txt"), ar("k1"), ar("k1")},
+			{ar("b"), ar("b"), ar("b")},
+			{aa("zz", "m", "new"), ar("zz"), ar("zz"), ar("m")},
+			{ar("c", "a"), aa("a", "k2", "again")},
+		} {
+			historyFrom(r, s0, h, nil, len(h), tmp, true)
+		}
+	}
 
 	// per-character keyword and name probes (single add, then list)
 	for c := rune(1); c < 0x180; c++ {
